@@ -398,39 +398,50 @@ def gen_case(rng, tier, stream):
     corrupt_at = None
     if stream == 'near-miss' and init_fields:
         corrupt_at = rng.choice(['ctor', 'copy', 'deep', 'ctor'])
-    if corrupt_at == 'ctor' and kw0:
-        i = rng.randrange(len(kw0))
-        n = kw0[i][0]
-        kw0[i][1] = L.val(gen_bad_value(rng, ann_of[n], trees0[n]))
-    pos = []
-    if not kw_only and kw0 and rng.random() < 0.35:
-        # a positional prefix (in field order) of the given values
+
+    def positional(kw):
+        """a positional prefix (in field order) of the given values"""
         order = [f['name'] for f in init_fields]
-        given = dict((n, v) for n, v in kw0)
+        given = dict((n, v) for n, v in kw)
         k = 0
         while k < len(order) and order[k] in given and rng.random() < 0.7:
             k += 1
-        pos = [given[n] for n in order[:k]]
-        kw0 = [[n, v] for n, v in kw0 if n not in order[:k]]
-    if kw_only and kw0 and stream == 'malformed' and rng.random() < 0.3:
-        pos, kw0 = [kw0[0][1]], kw0[1:]
+        return [given[n] for n in order[:k]], [[n, v] for n, v in kw if n not in order[:k]]
+    pos = []
+    if not kw_only and kw0 and rng.random() < 0.35:
+        pos, kw0 = positional(kw0)
+    prefix = [['ctor', target, pos, kw0]]
+    # the object in register 0 is built from conforming values (unless a default or a __post_init__ spoils it), so that
+    # the copy methods have a receiver; corrupted and malformed constructions are separate operations
+    extra = []
+    if corrupt_at == 'ctor' and kw0:
+        kwb = [list(x) for x in kw0]
+        i = rng.randrange(len(kwb))
+        n = kwb[i][0]
+        kwb[i][1] = L.val(gen_bad_value(rng, ann_of[n], trees0.get(n, ['none'])))
+        extra.append(['ctor', target, list(pos), kwb])
     if stream == 'malformed':
+        kwb, posb = [list(x) for x in kw0], list(pos)
         r = rng.random()
         if r < 0.3:
-            kw0.append([UNKNOWN_FIELD, L.val(['int', 1])])
-        elif r < 0.55 and kw0:
-            req = [i for i, (n, v) in enumerate(kw0) if next(f for f in init_fields if f['name'] == n)['default'] is None]
+            kwb.append([UNKNOWN_FIELD, L.val(['int', 1])])
+        elif r < 0.55 and kwb:
+            req = [i for i, (n, v) in enumerate(kwb) if next(f for f in init_fields if f['name'] == n)['default'] is None]
             if req:
-                kw0.pop(rng.choice(req))
+                kwb.pop(rng.choice(req))
         elif r < 0.75:
             nf = [f for f in fields if not f['init']]
             if nf:
-                kw0.append([rng.choice(nf)['name'], L.val(['int', 1])])
+                kwb.append([rng.choice(nf)['name'], L.val(['int', 1])])
         elif not kw_only:
-            pos = pos + [L.val(['int', 1])] * (len(init_fields) + 1)
-    prefix = [['ctor', target, pos, kw0]]
+            posb = posb + [L.val(['int', 1])] * (len(init_fields) + 1)
+        elif kwb:
+            posb, kwb = [kwb[0][1]], kwb[1:]              # positional argument to a keyword-only __init__
+        extra.append(['ctor', target, posb, kwb])
     list_fields = [n for n, t in trees0.items() if t[0] == 'list' and n in dict(kw0)]
-    if list_fields and rng.random() < 0.4:
+    list_fields += [f['name'] for f in init_fields if f['default'] == ['factory', 'list'] and f['name'] not in dict(kw0)
+                    and not pos]
+    if list_fields and rng.random() < 0.75:
         n = rng.choice(list_fields)
         prefix.append(['validate', 0])
         prefix.append(['append', 0, n, L.val(rng.choice([['int', 3], ['str', [97]], ['none'], ['inst', [0], 1], ['list', []]]))])
@@ -447,7 +458,8 @@ def gen_case(rng, tier, stream):
     else:
         other = rng.randrange(depth + 1)
         prefix.append(['ctor', other, [], [[n, v] for n, v in kw0 if n in [f['name'] for f in merged_fields(case, other) if f['init']]]])
-    nreg = 2
+    prefix += extra
+    nreg = 2 + len(extra)
     branches = []
     names = [f['name'] for f in init_fields]
     subsets = [[], names]
